@@ -167,24 +167,28 @@ func (m *Module) startCtrlFn(name string, fn func() error) chan error {
 
 	// Start control function in goroutine.
 	go func() {
-		// Recover from panic and reset control function signal.
+		var err error
+
+		// Recover from panic, reset control function signal and report error.
 		defer func() {
 			// recover from panic
 			panicVal := recover()
 			if panicVal != nil {
 				me := m.NewPanicError(name, "module-control", panicVal)
 				me.Report()
-				ctrlFnError <- fmt.Errorf("panic: %s", panicVal)
+				err = fmt.Errorf("panic: %s", panicVal)
 			}
 
 			// Signal finish.
+			// Reset the flag before handing over the result, so that the reset
+			// cannot hit the flag of a control function that is started next.
 			m.ctrlFuncRunning.UnSet()
+			ctrlFnError <- err
 			m.checkIfStopComplete()
 		}()
 
-		// Run control function and report error.
-		err := fn()
-		ctrlFnError <- err
+		// Run control function.
+		err = fn()
 	}()
 
 	return ctrlFnError
